@@ -345,6 +345,26 @@ package fiber
 // ---------------------------------------------------------------------------------------------
 
 //@ macro wfRoute(r) = r != nil && wfParser(r.routeParser) && (!r.mount ==> len(r.Handlers) > 0)
+// THE invariant of a route that dispatch rests on - the relation between the registered path and the routing data that
+// Route.match compares (path, routeParser, star, root), that buildTree derives the bucket key from (rhash: the first
+// literal of routeParser) and that Params() names the captured values by (Params). Written with its witness P, the
+// NORMAL FORM of the registered path (normalForm, zz_contracts_c03_verif.go: lower-cased unless CaseSensitive, trailing
+// slashes removed unless StrictRouting - the very normalisation configDependentPaths applies to the request's
+// detection path, from which the request's bucket key hash3(detectionPath) is taken):
+//   path         the literal text compared with the detection path: the unescaped normal form;
+//   routeParser  the parse of the NORMAL FORM - not of the path as registered: its literals are compared byte-wise with
+//                the (folded, trimmed) detection path, and its first literal is the key the route is filed under;
+//   Params       the parameter names of the path AS REGISTERED (they keep their letter case);
+//   star, root   the shortcut flags: star exactly for "/*", root only for "/".
+// Both ways a route comes into a stack establish it, under this one name (obligation `route-as-registered`):
+//   (*App).register          for every route it hands to addRoute (directly registered routes, Use copies, mount markers);
+//   (*App).addPrefixToRoute  for every clone that processSubAppsRoutes splices in for a mounted sub-app.
+// segsOf/paramsOf name the outcome of a parse within one activation (slice values): the macro is a postcondition of the
+// registration step, not a stored object invariant; its state-based core is leadingLiteral below.
+//@ macro registeredAs(app, r, P) = normalForm(app.config.CaseSensitive, app.config.StrictRouting, r.Path, P) && r.path == unescaped(P) &&
+//@ ..  r.routeParser.segs == segsOf(P, epoch) && r.routeParser.params == paramsOf(P, epoch) && r.Params == paramsOf(r.Path, epoch) &&
+//@ ..  r.star == (r.path == "/*") && (r.root ==> r.path == "/")
+//@ macro routeAsRegistered(app, r) = existsS(P, registeredAs(app, r, P))
 // every bucket of the lookup index holds well-formed routes
 //@ macro wfTrees(app) = forallI(m, forallI(h, 0 <= m && m < len(app.treeStack) ==> forall(i, 0, len(app.treeStack[m][h]), wfRoute(app.treeStack[m][h][i]))))
 //@ macro dpOf(c) = str(c.detectionPath)
